@@ -48,16 +48,23 @@ class Dev:
         self.oplog = oplog if oplog is not None else NullLog()
         self.bad_read = bad_read
         self.value = 0
+        self.nreads = 0
         self.cbs = []
 
     def __repr__(self):
         return f"Dev({self.name})"
 
     # Readable
+    def peek(self):
+        """[[key, value]...] that the next read() will return (every read returns fresh values)"""
+        ks = self.bad_read if self.bad_read is not None else self.keys
+        return [[k, self.value * 100 + self.nreads + 1] for k in ks]
+
     def read(self):
         self.ledger.append([self.name, "read"])
-        ks = self.bad_read if self.bad_read is not None else self.keys
-        return {k: {"value": self.value, "timestamp": 0.0} for k in ks}
+        out = {k: {"value": v, "timestamp": 0.0} for k, v in self.peek()}
+        self.nreads += 1
+        return out
 
     def describe(self):
         self.ledger.append([self.name, "describe"])
